@@ -84,6 +84,13 @@ CHECKS = {
                      "physical position of the probe",
                 note="numbering base calibrated on the empty layout; only drift is judged",
                 technique="bounded exhaustive enumeration of source layouts with an injected fault at every position"),
+    "C15": dict(level="model_checking", ref="3/C15",
+                text="explicit enumeration of config load histories (1-2 files, <=2/3 top-level items over classes A/B/C with bases incl. missing / self / "
+                     "mutual ones, 12 bodies with fields, nested classes, delete, +=) and, in every reached tree, all lookups over a path x entry "
+                     "alphabet (kind predicates, getNumber/getText/getArray, inheritsFrom, configHierarchy, count/select) against a reference tree; every "
+                     "query under a watchdog (termination / acyclicity)",
+                note="states = reference trees reached (the container table is fully observable through the queries); ambiguous config semantics are outside the alphabet",
+                technique="explicit-state enumeration of load histories on the real config host against a reference tree model"),
 }
 
 PENDING_REASON = "check not built yet in this round (planned, see DESIGN.md section 3)"
